@@ -3,6 +3,9 @@
 use serde_json::{json, Value};
 use std::io::{BufRead, Write};
 
+mod conv;
+mod dump;
+mod echo;
 mod errs;
 mod util;
 
@@ -11,6 +14,8 @@ fn dispatch(case: &Value) -> Value {
     match op {
         "err_expr" => errs::run_err_expr(case),
         "acc_ops" => errs::run_acc_ops(case),
+        "conv" => conv::run_conv(case),
+        "int_sweep" => conv::run_int_sweep(case),
         _ => json!({"error": format!("unknown op {}", op)}),
     }
 }
